@@ -1,6 +1,7 @@
 """C19 — parallel loading and saving give exactly the sequential results."""
 import concurrent.futures
 import json
+import re
 import os
 import shutil
 import time
@@ -36,6 +37,12 @@ TRUSTED = [
     "Coq 8.16.1 kernel and vm_compute; no axioms; no extraction",
 ]
 ASSUMPTIONS = [
+    "failed saves / loads are compared by Ok-or-failure; WHICH failure is reported (error identity, and panic versus "
+    "Err) is compared only when the failing glif tasks of the save fail alike: by C19_save_failure_is_some_tasks / "
+    "C19_save_failure_uniform a parallel try_for_each reports the failure of some failing task. The one mixed case "
+    "that occurs (a panicking task from a raw-entry removal plus an erroring task in the same layer) is the known "
+    "finding raw-entry-panic-vs-io-error; its class predicate is evaluated by the harness on the font state before "
+    "every save (line FAILSET) and checked against the sequential build's outcome",
     "several saves in one process (thread pool and per-thread state survive): [save fails on an objectLibs key, key "
     "removed, save again], [save below a directory so deep that one long-named glif exceeds PATH_MAX: I/O error while "
     "the glifs are written, then save elsewhere], [save, save again twice elsewhere]; every successful save's tree and "
@@ -56,6 +63,56 @@ THREADS = [1, 2, 3, 4, 8, 16]
 
 def comparable(text):
     return [l for l in text.split("\n") if not l.startswith("ERRINFO")]
+
+
+KNOWN_MIXED = "raw-entry-panic-vs-io-error"
+FAILSET_RE = re.compile(r"^FAILSET layer=(\d+) panics=(\d+) errs=(\d+)$")
+STATUS_RE = re.compile(r"^(SAVE|STEP \d+ (?:deep|again)) (ok|err|panic)$")
+
+
+def canon_mixed(lines):
+    """Class predicate of finding raw-entry-panic-vs-io-error, evaluated by the harness on the font state
+    before every save (line FAILSET): in the first failing layer some glif task panics (a name in the
+    file-name index without a glyph, reachable only through Layer::entry removal) AND another one returns
+    an error. Exactly for such a save the status `panic` / `err` is replaced by one token; everything
+    else stays as it is. Returns (lines, indices of the rewritten status lines)."""
+    out = []
+    mixed = False
+    idx = []
+    for l in lines:
+        m = FAILSET_RE.match(l)
+        if m:
+            mixed = int(m.group(2)) > 0 and int(m.group(3)) > 0
+        elif l.startswith("FAILSET"):
+            mixed = False
+        else:
+            m2 = STATUS_RE.match(l)
+            if m2:
+                if mixed and m2.group(2) in ("err", "panic"):
+                    idx.append(len(out))
+                    l = m2.group(1) + " fails(panic-or-err)"
+                mixed = False
+        out.append(l)
+    return out, idx
+
+
+def failset_consistent(lines):
+    """the predicted failing tasks must explain the observed status of the save (sequential build)"""
+    bad = []
+    cur = None
+    for l in lines:
+        if l.startswith("FAILSET"):
+            cur = l
+        else:
+            m2 = STATUS_RE.match(l)
+            if m2 and cur is not None:
+                m = FAILSET_RE.match(cur)
+                want = ({"ok"} if not m else {"panic"} if int(m.group(3)) == 0 else {"err"} if int(m.group(2)) == 0
+                        else {"panic", "err"})
+                if m2.group(2) not in want and "deep skipped" not in l:
+                    bad.append((cur, l))
+                cur = None
+    return bad
 
 
 def split_tree(lines):
@@ -81,7 +138,8 @@ def run_bins(ctx, sh, out, seq_bin, par_bin, reps, threads):
 
 def compare(ctx, out, known_ids, threads, ufo_ids, store_replay=True):
     """compare every rayon result with the sequential one; returns statistics"""
-    st = {"ufo_runs": 0, "load_ok": 0, "load_err": 0, "save_err": 0, "rep_variation": 0, "sequential_build_not_repeatable": 0}
+    st = {"ufo_runs": 0, "load_ok": 0, "load_err": 0, "save_err": 0, "rep_variation": 0, "sequential_build_not_repeatable": 0,
+          "mixed_failure_class_saves": 0, "mixed_failure_class_differences": 0}
     seqdir = os.path.join(out, "res", "seq")
     found = []
     for k in ufo_ids:
@@ -98,7 +156,13 @@ def compare(ctx, out, known_ids, threads, ufo_ids, store_replay=True):
             ctx.disagreements.append({"what": "regression input: load outcome differs from the recorded one (model: load_impl "
                                               "refuses a contents.plist in which two names share a file)",
                                       "ufo": k, "expected": "LOAD " + side["expect_load"], "implementation": sref[:1]})
-        sbase, stree = split_tree(sref)
+        sref_c, sref_i = canon_mixed(sref)
+        if sref_i:
+            st["mixed_failure_class_saves"] += len(sref_i)
+        for cur, l in failset_consistent(sref):
+            ctx.disagreements.append({"what": "class predicate (failing glif tasks predicted from the font state) does not explain "
+                                              "the observed status of the save", "ufo": k, "predicted": cur, "observed": l})
+        sbase, stree = split_tree(sref_c)
         # the sequential build itself must be repeatable to serve as the reference; if it is not, that
         # is C10's finding (determinism), not a difference between parallel and sequential: skip, count
         if any(f.startswith(k + ".rep") for f in os.listdir(seqdir)):
@@ -113,9 +177,16 @@ def compare(ctx, out, known_ids, threads, ufo_ids, store_replay=True):
             got = comparable(open(os.path.join(out, "res", tag, f)).read())
             if got == sref:
                 continue
+            cg, ig = canon_mixed(got)
+            if cg == sref_c and ig == sref_i:
+                # differs from the sequential build only in panic-vs-err of a save inside the class
+                st["mixed_failure_class_differences"] += 1
+                if KNOWN_MIXED in known_ids:
+                    ctx.known_hits[KNOWN_MIXED] = ctx.known_hits.get(KNOWN_MIXED, 0) + 1
+                    continue
             if ".rep" in f:
                 st["rep_variation"] += 1
-            gbase, gtree = split_tree(got)
+            gbase, gtree = split_tree(cg)
             what = None
             if gbase != sbase:
                 i = next((i for i in range(min(len(gbase), len(sbase))) if gbase[i] != sbase[i]), min(len(gbase), len(sbase)))
@@ -317,7 +388,7 @@ def replay(ctx, path):
     known_ids = {k["id"] for k in driver.parse_known("C19")}
     st = compare(ctx, out, known_ids, THREADS, ufo_ids, store_replay=False)
     print("UFO:", src, "generator:", inp.get("generator"), "seed:", inp.get("generator_seed"))
-    print("runs compared:", st["ufo_runs"])
+    print("runs compared:", st["ufo_runs"], "| differences inside known class %s: %d" % (KNOWN_MIXED, st["mixed_failure_class_differences"]))
     for v in ctx.violations[:10]:
         print("DIFFERENT:", json.dumps(v)[:1500])
     if not ctx.violations:
